@@ -828,7 +828,9 @@ def run(tier: str, budget: Budget, rnd, arg: str) -> StreamResult:
             res.count(f"n:{n}")
             res.count(f"initial:{how}")
             res.count(f"budget:{bud}")
-            approx = linear and fam != "own_pow2"       # elsewhere numpy's float sums of normalised values round
+            # numpy's float sums of normalised values round unless the values are short dyadics (family own_pow2)
+            approx = linear and not all(Fraction(x).denominator <= 2 ** 20 and abs(x) < 2 ** 20 for h in hs for x in h.norm)
+            res.count(f"linear-observation:{'tolerance' if approx else 'exact'}" if linear else "exact-protocol")
             c = Case(res, script, f"c{cid}", n, comp, gap, bud, init, hs, arg if arg != "C08env" else "C08", kind,
                      linear=linear, np_seed=(rnd.randrange(2 ** 31) if linear else None), approx_lin=approx, **kw)
             if res.samples is not None and len(res.samples) < 3:
